@@ -68,7 +68,7 @@ example :
     public attribute that the body reads (the memoisation as it was: bare `lru_cache`) -/
 example :
     let old : List MemoSite :=
-      [⟨"CustomSD", "eta_function", 0, true, ["tau"], [], [⟨"temperature", .direct⟩], []⟩]
+      [⟨"CustomSD", "eta_function", 0, true, ["tau"], [], [⟨"temperature", .direct⟩], [], .module⟩]
     siteOK isPublic (siteAt old 0) = false ∧
     outsM old (freeBody old) initM
       [.new "CustomSD" [("temperature", 1)], .eval 0 0 [3], .setParam 0 "temperature" 5,
@@ -102,25 +102,24 @@ theorem copy_independent {Out : Type} (F : Nat → (Read → Val) → Args → O
     show copyTarget st1.heap src cs.kind = _
     cases hkind : cs.kind <;> simp_all [copyTarget]
   have hget : st1.heap[src]? = some st1.heap[src] := List.getElem?_eq_getElem hsrc
-  -- the copy step appends the source object
-  have hstep : (stepM memoSites F st1 (.copy src cs.kind)).1
-      = { st1 with heap := st1.heap ++ [st1.heap[src]] } := by
+  -- the copy step appends an object with the source's attribute values
+  have hstep : (stepM memoSites F st1 (.copy src cs.kind)).1.heap.length = st1.heap.length + 1 ∧
+      paramsOf (stepM memoSites F st1 (.copy src cs.kind)).1.heap st1.heap.length
+        = paramsOf st1.heap src := by
     cases hkind : cs.kind with
     | alias => exact absurd hkind hk
-    | shallow => simp [stepM, hget]
-    | deep => simp [stepM, hget]
+    | shallow => simp [stepM, hget, paramsOf]
+    | deep => simp [stepM, hget, paramsOf]
   have hI1 := inv_run isPublic memoSites F memo_table hF pre initM
     (inv_init isPublic memoSites F) hpre
   have hI1' := inv_step isPublic memoSites F memo_table hF st1 (.copy src cs.kind) hI1 trivial
   have hI2 := inv_run isPublic memoSites F memo_table hF post _ hI1' hpost
   have hjlt : j < (stepM memoSites F st1 (.copy src cs.kind)).1.heap.length := by
-    rw [hstep, hj]; simp
+    rw [hstep.1, hj]; omega
   have hpar := paramsOf_run memoSites F post _ j hjlt (by rw [hj]; exact hno)
   have hpj : paramsOf (stepM memoSites F st1 (.copy src cs.kind)).1.heap j
       = paramsOf st1.heap src := by
-    rw [hstep, hj]
-    unfold paramsOf
-    simp [hget]
+    rw [hj]; exact hstep.2
   have hsrc' : src < st1.heap.length := hsrc
   refine ⟨by omega, hpar.1.trans hpj, ?_⟩
   intro k x
@@ -146,15 +145,49 @@ example :
     kind `closure` is resolved on the original, so the copy follows the original -/
 example :
     let old : List MemoSite :=
-      [⟨"PowerLawSD", "correlation", 0, false, [], [], [⟨"alpha", .closure⟩], []⟩]
+      [⟨"PowerLawSD", "correlation", 0, false, [], [], [⟨"alpha", .closure⟩], [], .module⟩]
     siteOK isPublic (siteAt old 0) = false ∧
     outsM old (freeBody old) initM
       [.new "PowerLawSD" [("alpha", 1)], .copy 0 .shallow, .setParam 0 "alpha" 4, .eval 1 0 []]
     = [none, none, none, some ([4], [])] := by decide
 
+/-- the copy may be taken *after* memoised evaluations (`pre` in `copy_independent` is any
+    history): evaluate on the original, copy, assign on one of the two, evaluate on both — in
+    both directions each object answers by its own values -/
+example :
+    let k := memoIdx memoSites "PowerLawSD" "eta_function"
+    (outsM memoSites (freeBody memoSites) initM
+      [.new "PowerLawSD" [("temperature", 1)], .eval 0 k [3], .copy 0 .shallow,
+       .setParam 0 "temperature" 5, .eval 0 k [3], .eval 1 k [3],
+       .setParam 1 "temperature" 7, .eval 1 k [3], .eval 0 k [3]]).map
+        (fun o => o.map (fun p => (p.1.contains 1, p.1.contains 5, p.1.contains 7)))
+    = [none, some (true, false, false), none, none, some (false, true, false),
+       some (true, false, false), none, some (false, false, true), some (false, true, false)] := by
+  decide
+
+/-- the model exhibits what goes wrong when the results are kept in a dict in the instance
+    `__dict__` (placement `instance`) with a per-object "filled for" tuple: the shallow copy
+    shares the dict, the original refills it for its new temperature, and the copy — whose own
+    tuple still matches — returns the original's value (5 instead of 1) -/
+example :
+    let old : List MemoSite :=
+      [⟨"CustomSD", "eta_function", 0, true, ["tau"], ["temperature"], [⟨"temperature", .direct⟩], [],
+        .instance⟩]
+    siteOK isPublic (siteAt old 0) = false ∧
+    outsM old (freeBody old) initM
+      [.new "CustomSD" [("temperature", 1)], .eval 0 0 [3], .copy 0 .shallow,
+       .setParam 0 "temperature" 5, .eval 0 0 [3], .eval 1 0 [3]]
+    = [none, some ([1], [3]), none, none, some ([5], [3]), some ([5], [3])] ∧
+    -- a deep copy gets a dict of its own
+    outsM old (freeBody old) initM
+      [.new "CustomSD" [("temperature", 1)], .eval 0 0 [3], .copy 0 .deep,
+       .setParam 0 "temperature" 5, .eval 0 0 [3], .eval 1 0 [3]]
+    = [none, some ([1], [3]), none, none, some ([5], [3]), some ([1], [3])] := by decide
+
 /-! ### (3) user arrays: no mutation, no dependence on the memory layout -/
 
-/-- **no_mutation_layout_indep.**  For every array site of the anchored code, every user
+/-- **no_mutation_layout_indep.**  For every array site of the anchored code (object 0 is the
+    user's array, or — in the process-tensor getters — the tensor the object holds), every
     array `a0` (object 0; any strides whatsoever — C, Fortran, transposed, sliced, negative,
     broadcast —, writeable or not, any shape of the site's rank without empty axes) and every
     value of the integer variables:
